@@ -104,6 +104,20 @@ CLAIMS = {
         "technique": "TLA+ definitional oracle + Meek-rule state machine model-checked by TLC; exhaustive generated cases replayed on the code",
         "design_ref": "6/C12",
     },
+    "C20": {
+        "text": ("TLC evaluates an exact-rational specification of multivariate-normal algebra (spec/GaussLib.tla) and checks independent derivations "
+                 "against each other as lemmas (matrix vs recursive covariance, covariance vs information-form conditioning, normal equations, "
+                 "canonical-form marginalise/reduce/product vs the density incl. its constant g). For every DAG on <=4 nodes x coefficient patterns x "
+                 "every non-empty proper missing set (plus sampled 5-node DAGs) the expected joint, conditional mean/covariance and least-squares "
+                 "fit are replayed on LinearGaussianBayesianNetwork.to_joint_gaussian/predict/fit and LinearGaussianCPD.fit; every "
+                 "marginalise/reduce/canonical conversion/product/pdf on pools of positive-definite Gaussians (in and out of place, with frame "
+                 "and cached-precision checks) is replayed on GaussianDistribution and CanonicalDistribution; recorded calls on random 5-6 node "
+                 "networks are validated by TLC (Trace_C20)."),
+        "note": ("Integer / half-integer coefficients and small integer data (floating-point conditioning not examined); residual variance uses the "
+                 "code's n-1 divisor; g is a symbolic form q + c*log(2pi) - 1/2 log X evaluated by the harness; known finding: CanonicalDistribution.marginalize g."),
+        "technique": "TLA+ exact-rational Gaussian algebra with cross-derivation lemmas; TLC-generated cases replayed on the code; TLC trace validation",
+        "design_ref": "6/C20",
+    },
 }
 
 NOT_APPLICABLE = {}
